@@ -178,13 +178,34 @@ def real_ctor(k, seed=None):
     return args
 
 
+SENS_UNIT = 2.0 ** -30        # constant sensitivities are integer multiples of 2^-30 (exact in binary64 and in the model)
+NONCONSTANT_KINDS = ('ramp', 'tiny', 'drift', 'flip', 'last')
+
+
+def nonconstant(kind, n_dt):
+    """time-dependent sensitivities (n_dt >= 2): of order one, tiny in absolute terms, drifting by 1e-7 relative,
+    changing sign at 1e-12, constant except for the last segment"""
+    k = np.arange(n_dt, dtype=float)
+    if kind == 'tiny':
+        return 1e-9 * (k + 1)
+    if kind == 'drift':
+        return 1.0 + 1e-7 * k
+    if kind == 'flip':
+        return 1e-12 * (-1.0) ** k
+    if kind == 'last':
+        v = np.ones(n_dt)
+        v[-1] = 1.0 + 2.0 ** -40
+        return v
+    return k + 1.0
+
+
 def real_pulse(p, n_dt=2):
     if not p['ispulse']:
         return 5
     d = p['d']
     dt = dt_tag(p['dt'], n_dt)
     Hc = [[herm_tag(t['op'], d), np.arange(1.0, n_dt + 1) * (1 + t['op']), t['id']] for t in p['c']]
-    Hn = [[herm_tag(50 + t['op'], d), (np.full(n_dt, float(t['sens'])) if t['sens'] is not None else np.arange(1.0, n_dt + 1)), t['id']]
+    Hn = [[herm_tag(50 + t['op'], d), (np.full(n_dt, t['sens'] * SENS_UNIT) if t['sens'] is not None else nonconstant(t.get('kind', 'ramp'), n_dt)), t['id']]
           for t in p['n']]
     pls = ff.PulseSequence(Hc, Hn, dt, basis_tag(p['basis'], d))
     if p['pc']:
@@ -318,7 +339,7 @@ def gen_pulses(r, m=None, d=None):
     m = m or int(r.integers(1, 4))
     d = d or int(r.choice([2, 3]))
     in_all = {t: bool(r.random() < 0.5) for t in range(3)}
-    const = {t: int(r.integers(1, 4)) for t in range(3)}
+    const = {t: int(r.integers(1, 4)) * 2 ** 30 for t in range(3)}
     ps = []
     for i in range(m):
         ctags = [t for t in range(3) if r.random() < 0.6] or [0]
@@ -374,7 +395,7 @@ def concat_corruptions(ps):
             for kind in ('c', 'n'):            # 'q' names two operators; its suffixed form 'q_<i>' is already in use
                 j = (i + 1) % len(ps)
                 c = copy.deepcopy(ps)
-                extra = (lambda op, ident: dict(op=op, id=ident) if kind == 'c' else dict(op=op, id=ident, sens=1))
+                extra = (lambda op, ident: dict(op=op, id=ident) if kind == 'c' else dict(op=op, id=ident, sens=2 ** 30))
                 c[i][kind].append(extra(7, 'q'))
                 c[j][kind].append(extra(8, 'q'))
                 c[j][kind].append(extra(9, 'q_%d' % i))
@@ -383,13 +404,16 @@ def concat_corruptions(ps):
                 out.append(('suffixed-identifier-in-use', ('ValueError',), c))
             for a, t in enumerate(ps[i]['n']):   # a sensitivity that cannot be inferred
                 if not all(any(x['op'] == t['op'] for x in q['n']) for q in ps):
-                    c = copy.deepcopy(ps)
-                    c[i]['n'][a]['sens'] = None
-                    out.append(('sensitivity-not-constant', ('ValueError',), c))
-                    if t['sens'] is not None and sum(any(x['op'] == t['op'] for x in q['n']) for q in ps) > 1:
+                    for kind in NONCONSTANT_KINDS:
                         c = copy.deepcopy(ps)
-                        c[i]['n'][a]['sens'] = t['sens'] + 5
-                        out.append(('sensitivity-differs', ('ValueError',), c))
+                        c[i]['n'][a]['sens'] = None
+                        c[i]['n'][a]['kind'] = kind
+                        out.append(('sensitivity-not-constant' if kind == 'ramp' else 'sensitivity-not-constant-' + kind, ('ValueError',), c))
+                    if t['sens'] is not None and sum(any(x['op'] == t['op'] for x in q['n']) for q in ps) > 1:
+                        for delta, nm in ((5 * 2 ** 30, 'sensitivity-differs'), (1, 'sensitivity-differs-by-1e-9'), (-1, 'sensitivity-differs-by-1e-9')):
+                            c = copy.deepcopy(ps)
+                            c[i]['n'][a]['sens'] = t['sens'] + delta
+                            out.append((nm, ('ValueError',), c))
     return out
 
 
@@ -424,7 +448,7 @@ def gen_extend(r, n=None):
         else:
             qub, d = ('int', int(qs[used])) if r.random() < 0.7 else ('tuple', [int(qs[used])]), 2
             used += 1
-        p = dict(ispulse=True, d=d, basis=0, c=[dict(op=i, id='c')], n=[dict(op=i, id='n', sens=1)], dt=0,
+        p = dict(ispulse=True, d=d, basis=0, c=[dict(op=i, id='c')], n=[dict(op=i, id='n', sens=2 ** 30)], dt=0,
                  omega=None, cm=False, pc=False)
         entries.append(dict(pulse=p, qubits=qub, mapping=None))
     last = max(q for e in entries for q in ([e['qubits'][1]] if e['qubits'][0] == 'int' else e['qubits'][1]))
@@ -553,7 +577,7 @@ def extend_corruptions(x):
 def gen_remap(r):
     Nq = int(r.integers(1, 4))
     d = 2 ** Nq
-    p = dict(ispulse=True, d=d, basis=0, c=[dict(op=0, id='c0'), dict(op=1, id='c1')], n=[dict(op=0, id='n0', sens=1)], dt=0,
+    p = dict(ispulse=True, d=d, basis=0, c=[dict(op=0, id='c0'), dict(op=1, id='c1')], n=[dict(op=0, id='n0', sens=2 ** 30)], dt=0,
              omega=None, cm=False, pc=False)
     return dict(pulse=p, order=[int(i) for i in r.permutation(Nq)], ints=True, dpq=2, N=Nq, mapping=None)
 
@@ -604,7 +628,7 @@ def remap_corruptions(m):
 # ------------------------------------------------------------------ analysis functions
 def gen_analysis(r, k=None):
     pc = bool(r.random() < 0.5) if k is None else bool(k % 2)
-    p = dict(ispulse=True, d=2, basis=0, c=[dict(op=0, id='c0')], n=[dict(op=0, id='n0', sens=1), dict(op=1, id='n1', sens=2)], dt=0,
+    p = dict(ispulse=True, d=2, basis=0, c=[dict(op=0, id='c0')], n=[dict(op=0, id='n0', sens=2 ** 30), dict(op=1, id='n1', sens=2 ** 31)], dt=0,
              omega=(0 if pc or r.random() < 0.5 else None), cm=True, pc=pc)
     ids = [None, ['n0'], ['n1', 'n0'], ['n1']][int(r.integers(0, 4)) if k is None else (k // 2) % 4]
     n_idx = 2 if ids is None else len(ids)
@@ -770,7 +794,7 @@ def infidelity_option_cases(a):
 def cache_cases():
     """(name, model expression, callable, documented, signature)"""
     out = []
-    p_d = dict(ispulse=True, d=2, basis=0, c=[dict(op=0, id='c0')], n=[dict(op=0, id='n0', sens=1), dict(op=1, id='n1', sens=2)], dt=0,
+    p_d = dict(ispulse=True, d=2, basis=0, c=[dict(op=0, id='c0')], n=[dict(op=0, id='n0', sens=2 ** 30), dict(op=1, id='n1', sens=2 ** 31)], dt=0,
                omega=None, cm=False, pc=False)
     om = omega_tag(0)
     nn, nb, no = 2, 4, len(om)
@@ -830,7 +854,7 @@ def small_cases(r):
     """(name, coq model verdict expression, callable, documented classes)"""
     X, Y, Z = util.paulis[1:]
     out = []
-    p_plain = dict(ispulse=True, d=2, basis=0, c=[dict(op=0, id='c0')], n=[dict(op=0, id='n0', sens=1)], dt=0, omega=None, cm=False, pc=False)
+    p_plain = dict(ispulse=True, d=2, basis=0, c=[dict(op=0, id='c0')], n=[dict(op=0, id='n0', sens=2 ** 30)], dt=0, omega=None, cm=False, pc=False)
     p_pc = dict(p_plain, pc=True, omega=0)
     for p in (p_plain, p_pc):
         doc = () if p['pc'] else ('CalculationError',)
